@@ -214,6 +214,9 @@ class BaseSched:
                 if lag >= self.to_ticks or not self.lazy_beat:
                     k.env_beat(p.pid)
 
+    def after_tick(self, k):
+        pass
+
     def pick_zombie(self, k, zs):
         return zs[0]
 
@@ -363,6 +366,7 @@ def run_one(spec, sched=None, line_points=False):
     from gunicorn.arbiter import Arbiter
     os.makedirs(SCRATCH, exist_ok=True)
     T = spec.get("T", 2)
+    line_points = line_points or spec.get("line_points", False)
     settings = {
         "workers": spec.get("nw", 2),
         "timeout": spec.get("timeout", 2),
@@ -478,3 +482,170 @@ def _line_tracer(k):
 
 def cleanup():
     shutil.rmtree(SCRATCH, ignore_errors=True)
+
+
+# --------------------------------------------------------------------------------------------
+# spec -> code: replay of a TLC behaviour of specs/Arbiter.tla
+# --------------------------------------------------------------------------------------------
+
+STATUS_OF = {"ok": 0, "err": 256, "sig": 9, "b3": 768, "b4": 1024}
+ENV_ACTIONS = {"Die", "ExitOnSig", "Hang", "Beat", "SendSig", "Chld"}
+OP_OF = {"Fork": "fork", "Assign": "assign", "Nap": "sleep", "Kill": "kill", "SelectTimeout": "select",
+         "SelectWake": "select", "StopSleep": "sleep", "LClose": "lclose", "LOpen": "lopen",
+         "Unlink": "unlink", "Exit": "exit"}
+KST = {"run": "run", "hung": "hung", "zombie": "zomb", "reaped": "reaped"}
+
+
+class Drift(Exception):
+    pass
+
+
+def _set(v):
+    return set(v["__set__"]) if isinstance(v, dict) and "__set__" in v else set(v)
+
+
+class ReplaySched(BaseSched):
+    """The behaviour decides everything the environment does; the real master must perform the
+    same visible operations in the same order and be in the same projected state before each."""
+
+    def __init__(self, spec, beh, autobeat):
+        super().__init__(spec)
+        self.beh = beh                  # [(action, state), ...], beh[0] = Init
+        self.cur = 1                    # next step to consume
+        self.autobeat = autobeat
+        self.drift = None
+        self.ops = 0
+
+    def before_tick(self, k):
+        pass
+
+    def after_tick(self, k):
+        if self.autobeat:
+            for p in k.live():
+                if p.st == "run":
+                    k.env_beat(p.pid)
+
+    def fail(self, what):
+        if self.drift is None:
+            self.drift = "step %d (%s): %s" % (self.cur, self.beh[min(self.cur, len(self.beh) - 1)][0], what)
+        raise sk.EndOfRun("drift")
+
+    def compare(self, k):
+        st = self.beh[self.cur - 1][1]
+        m = st["m"]
+        arb = k.arb
+        got_w = set(arb.WORKERS.keys())
+        if got_w != _set(m["W"]):
+            self.fail("WORKERS %s, model %s" % (sorted(got_w), sorted(_set(m["W"]))))
+        if arb.num_workers != m["nw"]:
+            self.fail("num_workers %s, model %s" % (arb.num_workers, m["nw"]))
+        if len(arb.SIG_QUEUE) != len(m["sigq"]):
+            self.fail("len(SIG_QUEUE) %s, model %s" % (len(arb.SIG_QUEUE), len(m["sigq"])))
+        ab = set(p for p, w in arb.WORKERS.items() if w.aborted)
+        if ab != (_set(m["ab"]) & got_w):
+            self.fail("aborted %s, model %s" % (sorted(ab), sorted(_set(m["ab"]) & got_w)))
+        for i, s in enumerate(st["st"]):
+            pid = i + 1
+            have = KST[k.procs[pid].st] if pid in k.procs else "none"
+            if have != s:
+                self.fail("process %d is %s, model %s" % (pid, have, s))
+        lo = any(ls.open for ls in k.listeners)
+        if lo != m["lopen"]:
+            self.fail("listeners open %s, model %s" % (lo, m["lopen"]))
+
+    def env_step(self, k, act, prev, nxt):
+        if act in ("Die", "ExitOnSig"):
+            for i, (a, b) in enumerate(zip(prev["st"], nxt["st"])):
+                if a != b:
+                    k.env_die(i + 1, STATUS_OF[nxt["xs"][i]])
+        elif act == "Hang":
+            for i, (a, b) in enumerate(zip(prev["st"], nxt["st"])):
+                if a != b:
+                    k.env_hang(i + 1, nxt["ign"][i])
+        elif act == "Beat":
+            for i, (a, b) in enumerate(zip(prev["lag"], nxt["lag"])):
+                if a != b:
+                    k.env_beat(i + 1)
+        elif act == "SendSig":
+            q0, q1 = prev["m"]["sigq"], nxt["m"]["sigq"]
+            if len(q1) > len(q0):
+                name, w, c = q1[-1]
+                self.apply(k, ["sig", name, w, c], record=False)
+            else:
+                self.apply(k, ["sig", "TTIN"], record=False)
+        elif act == "Chld":
+            if not k.chld_pending:
+                self.fail("model delivers SIGCHLD, none pending in the kernel")
+            k.deliver_chld()
+
+    def at(self, k, label, nth, idx):
+        if k.in_handler or not label.endswith(".pre"):
+            return
+        op = k.cur_op[0]
+        self.compare(k)
+        while True:
+            if self.cur >= len(self.beh):
+                raise sk.EndOfRun("replayed")
+            act, nxt = self.beh[self.cur]
+            if act not in ENV_ACTIONS:
+                break
+            prev = self.beh[self.cur - 1][1]
+            self.cur += 1
+            self.env_step(k, act, prev, nxt)      # Chld may raise HaltServer into the master
+            self.compare(k)
+        if op == "unlink" and act != "Unlink":
+            return                                 # pid file handling inside reload() is not modelled
+        if OP_OF.get(act) != op:
+            self.fail("master performs %s, model expects %s" % (k.cur_op, act))
+        pm = self.beh[self.cur - 1][1]
+        if act == "Kill":
+            want = (pm["m"]["kp"], sk.SIGNUM[pm["m"]["ks"]])
+            if (k.cur_op[1], k.cur_op[2]) != want:
+                self.fail("kill%s, model kill%s" % (k.cur_op[1:], want))
+        if act == "Fork" and k.cur_op[1] != pm["nextPid"]:
+            self.fail("fork -> %s, model %s" % (k.cur_op[1], pm["nextPid"]))
+        if act in ("Nap", "StopSleep") and (k.cur_op[1] > 0) != (act == "StopSleep"):
+            self.fail("sleep(%d ticks), model %s" % (k.cur_op[1], act))
+        if act == "SelectWake" or act == "SelectTimeout":
+            import select as _s
+            readable = bool(_s.select([k.arb.PIPE[0]], [], [], 0)[0])
+            if readable != (act == "SelectWake"):
+                self.fail("wake-up pipe readable=%s, model %s" % (readable, act))
+        self.cur += 1
+        self.ops += 1
+
+    def finish(self, k, end, status, exc):
+        """called by run_one when run() has ended"""
+        if self.drift is not None or end == "end":
+            return
+        try:
+            # the process is gone: environment steps the model still has before Exit cannot be applied
+            skipped_chld = False
+            while self.cur < len(self.beh) and self.beh[self.cur][0] in ENV_ACTIONS:
+                skipped_chld = skipped_chld or self.beh[self.cur][0] == "Chld"
+                self.cur += 1
+            act, nxt = self.beh[self.cur] if self.cur < len(self.beh) else (None, None)
+            last = self.beh[self.cur - 1][1]
+            if end == "exit":
+                if act != "Exit" and skipped_chld:
+                    return                        # handler between the last operation and sys.exit: not reachable
+                if act != "Exit":
+                    self.fail("master exits(%s), model expects %s (pc %s)" % (status, act, last["m"]["pc"]))
+                if last["m"]["xstat"] != status:
+                    self.fail("exit status %s, model %s" % (status, last["m"]["xstat"]))
+            elif end == "escape":
+                if last["m"]["pc"] != "Escaped":
+                    self.fail("%s escapes run(), model pc %s" % (exc, last["m"]["pc"]))
+        except sk.EndOfRun:
+            pass
+
+
+def replay_behaviour(beh, consts):
+    """-> (drift text or None, trace).  consts: Timeout, Graceful, InitWorkers, AutoBeat of the cfg."""
+    spec = {"nw": consts["InitWorkers"], "timeout": consts["Timeout"], "graceful": consts["Graceful"],
+            "T": 1, "pidfile": True, "prop": "ALL"}
+    sched = ReplaySched(spec, beh, consts.get("AutoBeat", True))
+    tr = run_one(spec, sched=sched)
+    sched.finish(None, tr["meta"]["end"], tr["meta"]["status"], tr["meta"]["exc"])
+    tr["meta"]["replayed_ops"] = sched.ops
+    return sched.drift, tr
